@@ -29,7 +29,7 @@ type Case struct {
 	Pre    *gen.TV   `json:"pre"` // nil: the zero value
 	Cfg    *gen.Tree `json:"cfg"`
 	VarExp bool      `json:"varexp,omitempty"`
-	Policy int       `json:"policy,omitempty"` // global list policy given to Unpack: 0 none, 1 replace, 2 append, 3 prepend
+	Policy int       `json:"policy,omitempty"` // global list policy given to Unpack: 0 none, 1 replace, 2 append, 3 prepend, 4 replace arrays only
 	// dynamic types of the typed values that interfaces of the pre-filled value hold: the interface value
 	// {"keys":["dyn"],"u":k,"elems":[v]} holds the value v of the type Dyn[k] (see iface_test.go)
 	Dyn []*gen.TD `json:"dyn,omitempty"`
@@ -332,12 +332,13 @@ type call struct {
 	Dyn    []*gen.TD
 	reg    dynReg
 
-	extra     []ucfg.Option                 // further options of the Unpack call (StructTag, ValidatorTag)
-	extraText string                        // ... described
-	cfg       *ucfg.Config                  // the configuration object if it exists already (nil: made from Cfg)
-	newTarget func(twin bool) reflect.Value // pointer to a target in the state before the call
-	realT     reflect.Type
-	preText   func() string // the state of the target before the call, if Pre does not describe it
+	extra       []ucfg.Option                 // further options of the Unpack call (StructTag, ValidatorTag, Field...Values)
+	fieldPolicy bool                          // ... a list policy for a field is among them
+	extraText   string                        // ... described
+	cfg         *ucfg.Config                  // the configuration object if it exists already (nil: made from Cfg)
+	newTarget   func(twin bool) reflect.Value // pointer to a target in the state before the call
+	realT       reflect.Type
+	preText     func() string // the state of the target before the call, if Pre does not describe it
 }
 
 // outcome of a call the oracle accepted.
@@ -393,6 +394,8 @@ func runCall(c *call, r recorder) (out outcome, _ error) {
 		unpackOpts = append(unpackOpts, ucfg.AppendValues)
 	case 3:
 		unpackOpts = append(unpackOpts, ucfg.PrependValues)
+	case 4:
+		unpackOpts = append(unpackOpts, ucfg.ReplaceArrValues)
 	}
 	unpackOpts = append(unpackOpts, c.extra...)
 	if cfg == nil {
@@ -423,7 +426,7 @@ func runCall(c *call, r recorder) (out outcome, _ error) {
 	describe := func() string {
 		pol := ""
 		if c.Policy != 0 {
-			pol = ", global list policy " + []string{"", "replace", "append", "prepend"}[c.Policy]
+			pol = ", global list policy " + []string{"", "replace", "append", "prepend", "replace arrays"}[c.Policy]
 		}
 		pre := ""
 		if c.preText != nil {
@@ -498,7 +501,7 @@ func runCall(c *call, r recorder) (out outcome, _ error) {
 		// the error has to name a rejected field or a field enclosing it. Under append/prepend/replace an element's
 		// position in the result differs from the index of the setting it came from (which is what the error
 		// names), so list indices are not compared then.
-		listPolicy := c.Policy != 0 || hasPolicyTag(c.T)
+		listPolicy := c.Policy != 0 || c.fieldPolicy || hasPolicyTag(c.T)
 		for _, d := range c.Dyn {
 			listPolicy = listPolicy || hasPolicyTag(d)
 		}
